@@ -675,7 +675,7 @@ def closing_context_class(ctx, info):
     return closed
 
 
-def _unstarted_path(cfg: CFG, exit_node: Node):
+def _unstarted_path(ctx, unit: Unit, cfg: CFG, exit_node: Node):
     """a path from entering ``async with Scope(gen(..)) as name`` to ``exit_node`` (the exit of that scope) on which ``name``
     is never pulled - the generator is then closed without ever having been started; None if there is none"""
     cm = exit_node.info.get("cm")
@@ -692,15 +692,22 @@ def _unstarted_path(cfg: CFG, exit_node: Node):
                 it = x.info.get("iter")
                 return isinstance(it, ast.Name) and it.id == name
             if x.kind == "await":
-                v = x.info.get("value")
-                return isinstance(v, ast.Call) and norm(v.func).split(".")[-1] in ("anext", "__anext__") and any(
-                    isinstance(a, ast.Name) and a.id == name for a in list(v.args) + [getattr(v.func, "value", None)])
+                return asks(x.info.get("value"))
             return False
 
+        def asks(c) -> bool:
+            return isinstance(c, ast.Call) and norm(c.func).split(".")[-1] in ("anext", "__anext__") and any(
+                isinstance(a, ast.Name) and a.id == name for a in list(c.args) + [getattr(c.func, "value", None)])
+
         def edge_ok(a: Node, lab: str, b: Node) -> bool:
-            # entering the scope and asking a generator for its iterator (itself) do not fail
+            # entering the scope, asking a generator for its iterator (itself) and creating the awaitable of its next item
+            # (``anext(gen)``, not yet awaited) do not fail
             if lab in ("e", "p") and (a is en or (a.kind == "aiter" and isinstance(a.info.get("iter"), ast.Name)
-                                                  and a.info["iter"].id == name)):
+                                                  and a.info["iter"].id == name)
+                                      or (a.kind == "call" and asks(a.ast))):
+                return False
+            # (exceptional edges only from what can raise in the fault model: user code, suspension points)
+            if lab == "e" and a.kind != "dispatch" and not is_risky(ctx, unit, a, None):
                 return False
             return True
         path = find_path(en, lambda x: x is exit_node, avoid=pulls, edge_ok=edge_ok)
@@ -726,7 +733,7 @@ def close_nodes(ctx, unit: Unit, cfg: CFG, src: str, findings: List[Tuple[Node, 
                 # it releases them only if that generator releases what it is handed (``zip`` does, its inner generators do not)
                 inner = cm.args[0] if isinstance(cm, ast.Call) and len(cm.args) == 1 else None
                 handed = _handed_to_generator(ctx, unit, inner, n, src)
-                unstarted = _unstarted_path(cfg, n) if handed is not None else None
+                unstarted = _unstarted_path(ctx, unit, cfg, n) if handed is not None else None
                 if unstarted is not None:
                     # closing an asynchronous generator that was never advanced does not run its body: its own clean-up
                     # (the scope around what it was handed) never happens
